@@ -18,6 +18,10 @@ import (
 
 var errInjected = errors.New("injected read failure")
 
+// errWrapsEOF: a reader failure that carries io.EOF in its chain (a transport reporting an
+// unexpected end). It is a failure, not the end of the stream, and must be reported as itself.
+var errWrapsEOF = fmt.Errorf("read tcp 10.0.0.1:443: connection reset: %w", io.EOF)
+
 // cutReader delivers data[:c] (in chunks of chunk bytes) and then fails.
 type cutReader struct {
 	data     []byte
@@ -208,6 +212,11 @@ func (ctx *c10Ctx) checkCut(c, mode int, opts *stack.Opts) (kfcut bool, err erro
 	case 3:
 		r.err, r.withData = errInjected, true
 	}
+	inj := errInjected
+	if mode >= 2 && c%3 == 1 {
+		inj = errWrapsEOF
+		r.err = inj
+	}
 	var w bytes.Buffer
 	var snap *stack.Snapshot
 	var suffix []byte
@@ -245,8 +254,8 @@ func (ctx *c10Ctx) checkCut(c, mode int, opts *stack.Opts) (kfcut bool, err erro
 	}
 	// The fault was met.
 	if mode >= 2 {
-		if e != errInjected {
-			return false, fmt.Errorf("reader failed with %q but ScanSnapshot returned %v", errInjected, e)
+		if e != inj {
+			return false, fmt.Errorf("reader failed with %q but ScanSnapshot returned %v", inj, e)
 		}
 	} else if e == nil {
 		return false, fmt.Errorf("stream ended inside/before the dump's end but err is nil")
